@@ -7,7 +7,7 @@ from krrood.adapters import json_serializer as js
 doc = json.load(open(sys.argv[1]))
 CANON = {"function": ["os.getcwd"], "module": ["os.path", "json.decoder"], "typevar-like": ["typing.T"],
          "unregistered-class": ["builtins.int"], "missing": ["os.nonexistent_xyz"],
-         "serializer-subclass": ["krrood.adapters.json_serializer.SubclassJSONSerializer"], "registered-class": ["uuid.UUID"]}
+         "none-object": ["builtins.None"], "serializer-subclass": ["krrood.adapters.json_serializer.SubclassJSONSerializer"], "registered-class": ["uuid.UUID"]}
 KIND = {"null": [None], "true": [True], "false": [False], "int": [5, 0, -1], "float": [1.5], "list-empty": [[]], "list": [["a.b"]],
         "dict-empty": [{}], "dict": [{"a": 1}]}
 msgs = []
@@ -38,10 +38,14 @@ for e in doc["models"]:
         except BaseException as ex:
             msgs.append(f"from_json with type tag {t!r} raised {type(ex).__name__}: {ex}")
             continue
-        if "identifies" in doc["obligation"] or "only-" in doc["obligation"] or "raises-" in doc["obligation"]:
-            # mapping obligations: report what was observed so the reader can compare
-            if outcome[0] == "documented" and doc["obligation"].startswith("from_json::") and "only-JSON" not in doc["obligation"]:
-                msgs.append(f"from_json with type tag {t!r} raised {type(outcome[1]).__name__} (obligation {doc['obligation']})")
+        ob = doc["obligation"].split("::")[-1]
+        if outcome[0] == "documented" and "-only-" in ob and not ob.startswith("only-JSON"):
+            # mapping obligation "<Error>-only-<when>": the model's canonical tag is of a kind for which <Error> is wrong
+            err = ob.split("-only-")[0]
+            if type(outcome[1]).__name__.startswith(err) and t in CANON.get(m.get("attribute"), []) + ([m.get("tag")] if "tag" in m else []):
+                msgs.append(f"from_json with type tag {t!r} raised {type(outcome[1]).__name__}, which misreports the problem (obligation {ob})")
+        if outcome[0] == "returned" and "handover" in ob:
+            msgs.append(f"from_json with type tag {t!r} returned {outcome[1]!r}")
 if msgs:
     print(json.dumps({"confirmed": True, "what": msgs[0], "all": msgs}))
 else:
